@@ -317,6 +317,13 @@ def _outpath_case(args):
         for o in outs:
             if o.exists():
                 o.unlink()
+        if how.startswith("last-"):
+            # a task with several inputs: the output coincides with an
+            # input that is not the first one
+            first = [p for p in ins if p.suffix == ".rtdc"][-1]
+            how_ = how[5:]
+        else:
+            how_ = how
         given = {"other-suffix": d / "result.compressed",
                  # the right suffix in another case
                  "upper-suffix": d / "result.RTDC",
@@ -331,7 +338,7 @@ def _outpath_case(args):
                  "stem-via-dotdot": d / "sub" / ".." / first.stem,
                  # a requested name that looks like dclab's temporary one
                  "tilde-suffix": d / "result.rtdc~",
-                 }[how]
+                 }[how_]
         (d / "sub").mkdir(exist_ok=True)
         here = os.getcwd()
         if how == "same-relative":
@@ -463,6 +470,9 @@ def run(ctx):
                           "same-via-dotdot", "same-relative",
                           "stem-via-dotdot", "tilde-suffix",
                           "upper-suffix", "mixed-suffix")]
+    oitems += [("join", "last-" + how, scratch)
+               for how in ("same-as-input", "input-stem", "same-via-dotdot",
+                           "stem-via-dotdot")]
     oitems += [("tdms2rtdc", how, scratch)
                for how in ("other-suffix", "no-suffix", "tilde-suffix",
                            "upper-suffix", "mixed-suffix")]
